@@ -1,11 +1,14 @@
 package props
 
 import (
+	"unicode"
+
 	"encoding/json"
 	"fmt"
 	"go/ast"
 	"go/parser"
 	"go/token"
+	"golang.org/x/net/idna"
 	"path/filepath"
 	"sort"
 	"strconv"
@@ -109,6 +112,9 @@ func asciiLower(s string) string {
 // lower-cases to k while U+017F LONG S only case-folds to s).
 func lookupTLD(label string) (tldEntry, bool) {
 	tab, _, _ := loadTLDTable()
+	if !isIA5(label) {
+		return tldEntry{}, false // table keys are ASCII (checked); see judgeable for the labels left out
+	}
 	if e, ok := tab[asciiLower(label)]; ok {
 		return e, true
 	}
@@ -165,9 +171,12 @@ func judgeC18(rec *stats.Rec, c c18Case) (string, string) {
 func judgeC18Inner(rec *stats.Rec, c c18Case) (string, string) {
 	switch c.What {
 	case "func":
-		if !isIA5(c.Domain) {
-			rec.Class("non_ascii_domain_skipped")
+		if !judgeable(c.Domain) {
+			rec.Class("ambiguous_non_ascii_label_skipped")
 			return "", ""
+		}
+		if !isIA5(c.Domain) {
+			rec.Class("non_ascii_domain_judged")
 		}
 		when := time.Unix(c.Unix, 0).In(time.FixedZone("z", c.Zone))
 		got, want := util.HasValidTLD(c.Domain, when), tldValidModel(c.Domain, when)
@@ -175,8 +184,8 @@ func judgeC18Inner(rec *stats.Rec, c c18Case) (string, string) {
 			return "hasvalidtld", fmt.Sprintf("HasValidTLD(%q, %s) = %v, table says %v", c.Domain, when.UTC().Format(time.RFC3339), got, want)
 		}
 	case "inmap":
-		if !isIA5(c.Domain) {
-			rec.Class("non_ascii_domain_skipped")
+		if !judgeable(c.Domain) {
+			rec.Class("ambiguous_non_ascii_label_skipped")
 			return "", ""
 		}
 		_, want := lookupTLD(c.Domain)
@@ -196,9 +205,11 @@ func judgeC18Inner(rec *stats.Rec, c c18Case) (string, string) {
 		}
 		rec.Class("tld_lint_executed")
 		cert := run.Cert
-		if !isIA5(cert.Subject.CommonName) || !isIA5(strings.Join(cert.DNSNames, "")) {
-			rec.Class("non_ascii_domain_skipped")
-			return "", ""
+		for _, n := range append([]string{cert.Subject.CommonName}, cert.DNSNames...) {
+			if !judgeable(n) {
+				rec.Class("ambiguous_non_ascii_label_skipped")
+				return "", ""
+			}
 		}
 		bad := false
 		if cn := cert.Subject.CommonName; cn != "" && !cnIsIP(cn) && !tldValidModel(cn, cert.NotBefore) {
@@ -339,6 +350,36 @@ func TestC18(t *testing.T) {
 	rec.Exhaustive("table well-formedness; every entry x {delegation, removal} x {-1s,0,+1s} x 3 spellings", true)
 	rec.Sample(map[string]interface{}{"entry": tab[keys[0]], "sweep": "example.<tld>, WWW.EXAMPLE.<TLD>, <tld> at delegation/removal -1s/0/+1s in zones 0/+14h/-12h"})
 
+	var ulabels []string
+	for _, k := range keys {
+		if strings.HasPrefix(k, "xn--") {
+			if u, err := idna.ToUnicode(k); err == nil && u != k {
+				ulabels = append(ulabels, u)
+			}
+		}
+	}
+	// enumerated: every such Unicode spelling, inside its A-label's period
+	for i, u := range ulabels {
+		if !stats.Mine(i) {
+			continue
+		}
+		a, _ := idna.ToASCII(u)
+		e := tab[a]
+		if d, ok := dayStart(e.Delegation); ok {
+			for _, dom := range []string{"example." + u, u, "xn--e1afmkfd." + u} {
+				c := c18Case{What: "func", Domain: dom, Unix: d + 86400*400}
+				rec.Eval()
+				rec.Class("ulabel_enumerated")
+				if sig, msg := judgeC18(rec, c); msg != "" {
+					report(sig, msg, c)
+				}
+				c2 := c18Case{What: "inmap", Domain: u}
+				if sig, msg := judgeC18(rec, c2); msg != "" {
+					report(sig, msg, c2)
+				}
+			}
+		}
+	}
 	labelGen := func(rt *rapid.T) string {
 		switch rapid.IntRange(0, 7).Draw(rt, "lk") {
 		case 0, 1, 2:
@@ -360,6 +401,10 @@ func TestC18(t *testing.T) {
 			}
 			return k
 		case 5:
+			if len(ulabels) > 0 && rapid.Bool().Draw(rt, "ulabel") {
+				// the Unicode spelling of an internationalised TLD: the table lists its A-label (xn--...) only
+				return ulabels[rapid.IntRange(0, len(ulabels)-1).Draw(rt, "ul")]
+			}
 			return rapid.SampledFrom([]string{"", "local", "invalid", "test", "localhost", "internal", "example", "onion", "arpa", "xn--", "Krd", "ſe", "İ", "co.uk"}).Draw(rt, "fixed")
 		case 6:
 			return rapid.StringMatching(`[a-zA-Z]{1,8}`).Draw(rt, "rnd")
@@ -525,6 +570,28 @@ func TestC18(t *testing.T) {
 			rec.Sample(map[string]interface{}{"base": o.Name, "dns": names, "not_before": nb.UTC().Format(time.RFC3339)})
 		}
 	})
+}
+
+// judgeable: the right-most label is pure ASCII, or contains no character that any case mapping relates to an
+// ASCII character (U+212A KELVIN SIGN, U+017F LONG S, U+0130 ...). Table keys are ASCII, so such a non-ASCII
+// label is not in the table under any reading of "compared case-insensitively"; only the ambiguous ones are
+// left out of the domain.
+func judgeable(domain string) bool {
+	lbl := domain[strings.LastIndex(domain, ".")+1:]
+	for _, r := range lbl {
+		if r < 0x80 {
+			continue
+		}
+		if unicode.ToLower(r) < 0x80 || unicode.ToUpper(r) < 0x80 || unicode.ToTitle(r) < 0x80 {
+			return false
+		}
+		for f := unicode.SimpleFold(r); f != r; f = unicode.SimpleFold(f) {
+			if f < 0x80 {
+				return false
+			}
+		}
+	}
+	return true
 }
 
 func isIA5(s string) bool {
